@@ -17,6 +17,14 @@ def make(tier, seed):
 
 def plain_row(rng, row, n):
     text = "".join(rng.choice(sccgen.SAFE_CHARS[:62]) for _ in range(n))
+    if n >= 3 and rng.random() < 0.3:
+        # blank cells at the start of the row (and sometimes inside) are cells like any other
+        k = rng.randint(1, 2)
+        text = " " * k + text[k:]
+        if rng.random() < 0.5:
+            j = rng.randint(k + 1, n - 2) if n - 2 >= k + 1 else None
+            if j:
+                text = text[:j] + " " + text[j + 1:]
     return {"row": row, "indent": 0, "tab": 0, "italic_pac": False, "items": [("c", ch) for ch in text]}, text
 
 
